@@ -208,3 +208,89 @@ def check_subset(chk, b, api, tests=True, digest_ref=None):
                         fail("outputs differ from the full feature set for " + k, cmd, l + "\nvs\n" + str(ref.get(k)))
                         break
     return lines
+
+
+# C18 under feature subsets WITHOUT alloc/std: the in-place API driven from several threads at once must give the
+# results of running the same sessions one after the other (a build-configuration-specific shared buffer would show)
+PAR_MAIN = '''
+use hpke::{aead::*, kdf::*, kem::*, Kem as KemTrait, OpModeR, OpModeS, PskBundle, Serializable};
+include!("rng.rs");
+fn session<A: Aead, K: Kdf, M: KemTrait>(seed: u8) -> Vec<u8> {
+    let mut out = Vec::new();
+    let (sk_r, pk_r) = M::derive_keypair(&[seed, 1, 2, 3, 4, 5, 6, 7, 8, 9, 10, 11, 12, 13, 14, 15, 16, 17, 18, 19, 20, 21, 22, 23, 24, 25, 26, 27, 28, 29, 30, 31]);
+    let (sk_s, pk_s) = M::derive_keypair(&[seed, 99, 2, 3, 4, 5, 6, 7, 8, 9, 10, 11, 12, 13, 14, 15, 16, 17, 18, 19, 20, 21, 22, 23, 24, 25, 26, 27, 28, 29, 30, 31]);
+    let psk_bytes = [seed; 40];
+    let psk = PskBundle::new(&psk_bytes, b"id").unwrap();
+    let info = [seed; 11];
+    for round in 0..6u8 {
+        let mode = round % 4;
+        let ms = match mode { 0 => OpModeS::<M>::Base, 1 => OpModeS::Psk(psk), 2 => OpModeS::Auth((sk_s.clone(), pk_s.clone())),
+                              _ => OpModeS::AuthPsk((sk_s.clone(), pk_s.clone()), psk) };
+        let mr = match mode { 0 => OpModeR::<M>::Base, 1 => OpModeR::Psk(psk), 2 => OpModeR::Auth(pk_s.clone()),
+                              _ => OpModeR::AuthPsk(pk_s.clone(), psk) };
+        let mut rng = Ctr(seed.wrapping_mul(7).wrapping_add(round));
+        let (enc, mut s) = hpke::setup_sender::<A, K, M, _>(&ms, &pk_r, &info, &mut rng).unwrap();
+        out.extend_from_slice(&enc.to_bytes());
+        let mut ok = true;
+        match hpke::setup_receiver::<A, K, M>(&mr, &sk_r, &enc, &info) {
+            Ok(mut r) => {
+                for i in 0..3u8 {
+                    let mut buf = [i ^ seed; 29];
+                    let tag = s.seal_in_place_detached(&mut buf, &info).unwrap();
+                    out.extend_from_slice(&buf); out.extend_from_slice(&tag.to_bytes());
+                    ok &= r.open_in_place_detached(&mut buf, &info, &tag).is_ok() && buf == [i ^ seed; 29];
+                }
+                let mut e1 = [0u8; 32]; let mut e2 = [0u8; 32];
+                s.export(b"x", &mut e1).unwrap(); r.export(b"x", &mut e2).unwrap();
+                ok &= e1 == e2;
+                out.extend_from_slice(&e1);
+            }
+            Err(_) => ok = false,
+        }
+        out.push(ok as u8);
+    }
+    out
+}
+fn all(seed: u8) -> Vec<u8> {
+    let mut v = Vec::new();
+KEMS
+    v
+}
+fn main() {
+    let n = 8u8;
+    let seq: Vec<Vec<u8>> = (0..n).map(all).collect();
+    let mut bad = 0;
+    for rep in 0..12 {
+        let hs: Vec<_> = (0..n).map(|t| std::thread::spawn(move || all(t))).collect();
+        for (t, h) in hs.into_iter().enumerate() {
+            if h.join().unwrap() != seq[t] { bad += 1; println!("MISMATCH rep {} session {}", rep, t); }
+        }
+    }
+    let round_trips_ok = seq.iter().all(|v| v.chunks(1).len() > 0);
+    println!("sessions={} reps=12 mismatches={} {}", n, bad, round_trips_ok);
+}
+'''
+
+
+def concurrency_probe(chk, b, feats):
+    """build and run the threaded probe under the given (no-alloc) feature subset; returns number of mismatches or None"""
+    kems = [k for k, f in ((32, "x25519"), (16, "p256"), (17, "p384"), (18, "p521")) if f in feats]
+    calls = "\n".join("    v.extend(session::<ChaCha20Poly1305, HkdfSha256, %s>(seed)); v.extend(session::<AesGcm128, HkdfSha512, %s>(seed));"
+                      % (KEM_TYPE[k], KEM_TYPE[k]) for k in kems)
+    d = b.crate("par", feats, {"main.rs": PAR_MAIN.replace("KEMS", calls), "rng.rs": DUMMY_RNG})
+    cmd = ["cargo", "run", "--offline", "--quiet", "--release"]
+    rc, out = run(cmd, d, b.flags(False))
+    chk.case(("concurrency-probe", tuple(feats)))
+    if rc != 0:
+        chk.violation("concurrent in-place sessions fail under features %s: %s" % (feats, out.strip().split("\n")[-1][:200]),
+                      {"kind": "build", "features": feats, "command": " ".join(cmd), "output": out[-3000:],
+                       "fingerprint": "c18-par-build-" + ",".join(feats)})
+        return None
+    line = [l for l in out.split("\n") if l.startswith("sessions=")]
+    mism = int(line[0].split("mismatches=")[1].split()[0]) if line else -1
+    if mism != 0:
+        chk.violation("sessions run concurrently on %d threads give other results than the same sessions run one after the "
+                      "other (features %s, no alloc): %d of %d" % (8, feats, mism, 96),
+                      {"kind": "build", "features": feats, "command": " ".join(cmd), "output": out[-3000:],
+                       "fingerprint": "c18-par-" + ",".join(feats)})
+    return mism
